@@ -62,6 +62,15 @@ def _arith_d1() -> List[str]:
             out.append(f"max({l}, {r})")
     out.append("min(a, b, 2)")
     out.append("max(a, b, 2)")
+    # unary operators in every combination of two, with and without parentheses / spaces
+    for l in ("a", "2", "1.5", "(a + b)"):
+        for u1 in ("-", "+"):
+            out.append(f"{u1}{l}")
+            for u2 in ("-", "+"):
+                out.append(f"{u1}({u2}{l})")
+                out.append(f"{u1} {u2}{l}")
+                out.append(f"b - {u1}{u2} {l}" if False else f"b {u1} {u2}{l}")
+    out += ["-(-(-a))", "a - -b", "a + +b", "a - (-b)", "-a * -b", "-(a) - -(b)", "not not (a < b)", "not (not (not a))", "- - - a"]
     # floor division / modulo where C and Python agree (non-negative dividend, positive divisor)
     for l in ("abs(a)", "abs(b)", "7"):
         for r in ("2", "3", "(abs(b) + 1)"):
@@ -222,7 +231,7 @@ def _once_only(seq) -> bool:
 def gen_S(tier: str) -> Iterator[dict]:
     all_syms = list(range(len(S_TEMPLATES)))
     if tier == "thorough":
-        spaces = [(all_syms, 3), (S_CORE, 4)]
+        spaces = [(all_syms, 2), (S_CORE + [43, 44], 3), (S_CORE[:8], 4)]
         passes_list = [0, 1, 3]
         pairs = AB_SMALL
     else:
@@ -298,6 +307,20 @@ def _k_blocks(depth: int, in_loop: bool, tier: str) -> Iterator[List[str]]:
         yield ["if x < y:", "    mon.write(7)", "elif x == y:"] + common.indent(body) + ["else:", "    x -= 1"]
         yield ["if x < y:", "    mon.write(7)", "elif x == y:"] + common.indent(body) + ["elif x > 5:", "    mon.write(9)", "else:", "    x -= 1"]
         yield ["if x < y:"] + common.indent(body) + ["elif x == y:", "    pass", "elif x > 5:"] + common.indent(body) + ["else:", "    mon.write(6)"]
+    # an enclosing loop / try whose body first-assigns a variable (so its nodes are rebuilt when the declaration is
+    # lifted) followed by an inner loop whose limit or loop variable is re-bound in its body
+    if depth >= 2:
+        inner_special = [
+            [f"for i{depth - 1} in range(n):", "    n = n - 1", f"    mon.write(i{depth - 1})"],
+            [f"for i{depth - 1} in range(3):", f"    mon.write(i{depth - 1})", f"    i{depth - 1} += 1"],
+            [f"for i{depth - 1} in range(abs(y) % 3 + 1):", "    y = y + 1", "    x += 1"],
+            [f"k{depth - 1} = 0", f"while k{depth - 1} < n:", f"    k{depth - 1} += 1", "    n = n - 1"],
+        ]
+        for inner in inner_special:
+            yield [f"for i{depth} in range(2):", "    w = x + 1"] + common.indent(inner)
+            yield [f"k{depth} = 0", f"while k{depth} < 2:", f"    k{depth} += 1", "    w = x + 1"] + common.indent(inner)
+            yield ["if x < y or x >= y:", "    w = x + 1"] + common.indent(inner)
+            yield [f"for i{depth} in range(2):"] + common.indent(inner) + ["    w = x + 1"]
     for tmpl in K_LOOPVAR:
         lv = [ln.replace("{d}", str(depth)) for ln in tmpl]
         yield [f"for i{depth} in range(3):"] + common.indent(lv + [f"mon.write(i{depth})"])
@@ -338,6 +361,8 @@ F_DEFS = {
     "cnt": ["def cnt():", "    return 4"],
     "early": ["def early(v):", "    if v < 0:", "        return 0", "    mon.write(v)", "    return v * 2"],
     "bump": ["def bump():", "    global x", "    x = x + 1"],
+    "docfn": ["def docfn(v):", '    """Report the value', '    on the serial line."""', "    mon.write(v)", "    return v + 1"],
+    "docfn2": ["def docfn2(v):", "    \'\'\'one", "    two", "    three\'\'\'", "    v = v * 2", "    return v"],
     "setg": ["def setg():", "    global g", "    g = 120"],
     "noisy": ["def noisy(v):", "    mon.write(v)", "    return v + 1"],
     "bump2": ["def bump2():", "    global x, y", "    x = x + 1", "    y = y + 2"],
@@ -366,6 +391,8 @@ F_CALLS = [
     (["inc"], ["mon.write(max(inc(a), b))"]),
     (["inc", "add"], ["if inc(a) > b:", "    x = add(a, b)"]),
     (["bump"], ["bump()", "bump()"]),
+    (["docfn"], ["x = docfn(a)"]),
+    (["docfn2"], ["mon.write(docfn2(b))"]),
     (["setg"], ["setg()", "g = 200", "mon.write(g)"]),          # the helper assigns the global before its first top-level assignment
     (["setg"], ["setg()", "g, g2 = 200, 3", "mon.write(g)"]),
     (["setg"], ["g = 200", "setg()", "mon.write(g)", "g = 7", "mon.write(g)"]),
@@ -495,7 +522,7 @@ def main(tier: str, seed: int, only=None) -> int:
     report = Report(ID, LEVEL, tier, seed)
     report.bounds = {
         "E": "expression trees of depth <= 2 over leaves a,b,2,-3,1.5 (one nested operand), run for (a,b) in {-7,-1,0,2,9}^2 (thorough) / every other pair (quick), plus literal-folded copies",
-        "S": "statement sequences k<=2 over 30 templates and k<=3 over a 9-symbol core (quick) / k<=3 over 30, k<=4 over 15 (thorough); placements setup / loop / every cut; passes 0..3",
+        "S": "statement sequences k<=2 over all templates and k<=3 over an 8-symbol core (quick) / k<=3 over a 19-symbol core, k<=4 over an 8-symbol core (thorough); placements setup / loop / every cut; passes 0..3",
         "K": "control-flow nestings of depth <= 2 (thorough adds a slice of depth 3) with first assignments / break / prints at every position",
         "F": "19 call patterns over 8 helpers, singles and ordered pairs of call sites",
         "L": "list init x op sequences k<=2 (quick) / 3 (thorough)",
